@@ -90,7 +90,11 @@ def gen_value(rng):
             cols[c] = [rng.choice(pool) for _ in range(nrows)]
             continue
         cols[c] = [None if rng.random() < 0.2 else rng.choice(EXAMPLES[t if rng.random() < 0.8 else rng.randrange(4)]) for _ in range(nrows)]
-    return ("frame", cols)
+    # how a missing cell is represented in the frame: every one of these is a null cell (pd.isnull), never a value of a wrong type
+    return ("frame", cols, rng.choice(["None", "None", "nan", "NA", "NaT"]))
+
+
+NULL_OBJECTS = {"None": lambda: None, "nan": lambda: float("nan"), "NA": lambda: __import__("pandas").NA, "NaT": lambda: __import__("pandas").NaT}
 
 
 def val_py(v):
@@ -99,7 +103,8 @@ def val_py(v):
         return None
     if v[0] == "atom":
         return v[1]
-    return pd.DataFrame({c: pd.Series(cells, dtype=object) for c, cells in v[1].items()})
+    null = NULL_OBJECTS[v[2] if len(v) > 2 else "None"]
+    return pd.DataFrame({c: pd.Series([null() if x is None else x for x in cells], dtype=object) for c, cells in v[1].items()})
 
 
 def run_impl(switch, arg_specs, ret_spec, pos, kw):
@@ -223,7 +228,7 @@ def run(chk):
     n = N[chk.tier]
     chk.prove([], extra_vo=["theories/Model/SchemaCases.vo"])
     chk.cov["trusted_base"] = ["Coq 8.16.1 kernel + vm_compute", "hand model Model/Schema.v of data_schema.py (_prep_schema_specification, _check_spec, _check_data_frame_matches_schema, check_args, check_return, switch)",
-                               "isinstance over the universe {int, float, str, bool} (bool a subclass of int); pandas iteration yields Python scalars; pd.isnull for cells",
+                               "isinstance over the universe {int, float, str, bool} (bool a subclass of int); pandas iteration yields Python scalars; pd.isnull for cells (missing cells are generated as None, float NaN, pd.NA and pd.NaT)",
                                "correspondence harness harness/props/C22.py (frames built with dtype=object so cells keep their Python types)"]
     chk.assumptions = ["specifications contain types, example values, None, one level of sets, and one level of column dicts (as the module asserts)",
                        "calls pass at most as many positional arguments as the function has parameters, and no argument both positionally and by keyword"]
@@ -293,7 +298,7 @@ def replay(path):
                 if x[0] == "set":
                     return ("set", norm_set([tup(e) for e in x[1]]))
                 if x[0] == "frame" and isinstance(x[1], dict):
-                    return ("frame", {c: (tup(v) if (isinstance(v, list) and v and v[0] in ("none", "type", "ex", "set")) else v) for c, v in x[1].items()})
+                    return ("frame", {c: (tup(v) if (isinstance(v, list) and v and v[0] in ("none", "type", "ex", "set")) else v) for c, v in x[1].items()}) + tuple(x[2:])
                 return tuple(x)
             return x
         specs = None if r["arg_specs"] is None else {k: tup(v) for k, v in r["arg_specs"].items()}
